@@ -10,7 +10,7 @@ def components():
 
 
 def oracles_():
-    return [oracles.ValidateIdem()]
+    return [comps_dflt.ValidateIdemC07()]
 
 
 TRUSTED = [
